@@ -1448,6 +1448,14 @@ def main(tier, replay_path=None):
         chk.sample(render_history(h, contents_tab))
     chk.sample("scalar loop: for every scalar cp: (string->utf8 (string (integer->char cp))) = arithmetic encoding, "
                "utf8->string/string-ref/string-set! with width change/make-string/string port round trips")
+    # the anchors lib/chibi/string.scm and lib/srfi/130: bounded-exhaustive enumeration against the same model
+    try:
+        from . import c12lib
+        c12lib.run(chk, tier)
+    except common.HarnessError:
+        raise
+    except Exception as ex:      # an internal error of the library part is a HARNESS error, never a verdict
+        raise common.HarnessError("c12lib failed internally: %r" % (ex,))
     common.cleanup_scratch()
     if os.path.isdir(common.SCRATCH_ROOT):      # directories of workers that were terminated at the deadline
         for f in os.listdir(common.SCRATCH_ROOT):
